@@ -1,6 +1,7 @@
 package sim
 
 import (
+	"bytes"
 	"encoding/binary"
 	"fmt"
 	"sort"
@@ -63,10 +64,10 @@ var allCB = []int{0, 0, CBAll, CBAlloc, CBValLength | CBValWrite | CBValRead, CB
 func Profiles() map[string]*Profile {
 	ps := map[string]*Profile{}
 	add := func(p *Profile) { ps[p.Name] = p }
-	add(&Profile{Name: "C01", Weights: mergeW(baseWeights(), map[string]float64{"invalid": 0.8}),
+	add(&Profile{Name: "C01", Weights: mergeW(baseWeights(), map[string]float64{"fill": 0.3, "invalid": 0.8}),
 		Judge:     []string{"set", "setitem", "del", "get", "getitem", "exist", "min", "max", "totals", "audit", "open", "reopen"},
 		AuditMode: "get", MaxStores: 1, AllowMem: true, MemOnlyP: 0.3, MinOps: 10, MaxOps: 80, LongRunP: 0.03, LongOps: 1200,
-		MaxColls: 4, MaxKeys: 40, CBChoices: allCB, CustomCmp: true, BigValues: true, PrioModes: []int{0, 1, 2, 3, 4}})
+		MaxColls: 4, MaxKeys: 40, CBChoices: allCB, CustomCmp: true, BigValues: true, PrioModes: []int{5, 0, 1, 2, 3, 4}})
 	add(&Profile{Name: "C02", Weights: mergeW(baseWeights(), map[string]float64{"setcolls": 0.004, "faultyflush": 0.5, "write": 0.6, "flush": 4, "reopen": 2.5, "setcoll": 1, "rmcoll": 0.6, "audit": 0.5, "reopen2": 0.5}),
 		Judge:     []string{"flush", "open", "reopen", "audit"},
 		AuditMode: "visit", MaxStores: 1, MinOps: 10, MaxOps: 80, LongRunP: 0.03, LongOps: 800,
@@ -75,11 +76,11 @@ func Profiles() map[string]*Profile {
 	add(&Profile{Name: "C04", Weights: mergeW(mergeW(baseWeights(), snapW), map[string]float64{"visit": 2, "setcoll": 0.3, "rmcoll": 0.3, "close": 0.15, "audit": 2, "revert": 0.15, "evict": 3}),
 		AuditMode: "visit", MaxStores: 1, AllowMem: true, MemOnlyP: 0.2, MinOps: 10, MaxOps: 70, LongRunP: 0.03, LongOps: 600,
 		MaxColls: 3, MaxKeys: 24, CBChoices: allCB, CustomCmp: true, Nested: true, CheckWrites: true, PrioModes: []int{0, 1, 2, 4}})
-	add(&Profile{Name: "C06", Weights: mergeW(baseWeights(), map[string]float64{"visit": 10, "iter": 3, "get": 0.5, "getitem": 0.5, "exist": 0, "min": 0.2, "max": 0.2, "totals": 0.2, "evict": 3, "audit": 0.3, "revert": 0.4, "setcoll": 0.3, "snapshot": 0.3, "snapclose": 0.2}),
+	add(&Profile{Name: "C06", Weights: mergeW(baseWeights(), map[string]float64{"fill": 0.3, "visit": 10, "iter": 3, "get": 0.5, "getitem": 0.5, "exist": 0, "min": 0.2, "max": 0.2, "totals": 0.2, "evict": 3, "audit": 0.3, "revert": 0.4, "setcoll": 0.3, "snapshot": 0.3, "snapclose": 0.2}),
 		Judge:     []string{"visit", "iter", "audit"},
 		AuditMode: "visit", MaxStores: 1, AllowMem: true, MemOnlyP: 0.2, MinOps: 10, MaxOps: 80, LongRunP: 0.03, LongOps: 800,
-		MaxColls: 3, MaxKeys: 40, CBChoices: allCB, CustomCmp: true, PrioModes: []int{0, 0, 1, 2, 3, 4}})
-	add(&Profile{Name: "C08", Weights: mergeW(baseWeights(), map[string]float64{"setcolls": 0.004, "flush": 5, "revert": 4, "reopen": 1, "setcoll": 0.5, "rmcoll": 0.3, "audit": 0.5, "get": 1, "getitem": 1, "exist": 0.5}),
+		MaxColls: 3, MaxKeys: 40, CBChoices: allCB, CustomCmp: true, PrioModes: []int{5, 0, 0, 1, 2, 3, 4}})
+	add(&Profile{Name: "C08", Weights: mergeW(baseWeights(), map[string]float64{"snapshot": 0.6, "snapclose": 0.4, "setcolls": 0.004, "flush": 5, "revert": 4, "reopen": 1, "setcoll": 0.5, "rmcoll": 0.3, "audit": 0.5, "get": 1, "getitem": 1, "exist": 0.5}),
 		Judge:     []string{"revert", "flush", "open", "reopen", "audit"},
 		AuditMode: "visit", MaxStores: 1, AllowMem: true, MemOnlyP: 0.08, MinOps: 6, MaxOps: 60, LongRunP: 0.02, LongOps: 400,
 		MaxColls: 3, MaxKeys: 16, CBChoices: allCB, CustomCmp: true, AdvValues: true, CheckDecode: true, PrioModes: []int{0, 1, 4}})
@@ -91,20 +92,20 @@ func Profiles() map[string]*Profile {
 	add(&Profile{Name: "C10", CheckPins: true, Weights: mergeW(mergeW(baseWeights(), snapW), map[string]float64{"faultymut": 0.8, "faultyflush": 0.6, "flush": 3, "reopen": 1.2, "visit": 4, "iter": 1, "setcoll": 1, "rmcoll": 0.5, "close": 0.3, "burst": 2, "audit": 3, "snaprevert": 0.2, "copyto": 0.2}),
 		AuditMode: "visit", MaxStores: 3, AllowMem: true, MinOps: 10, MaxOps: 80, LongRunP: 0.03, LongOps: 600,
 		MaxColls: 3, MaxKeys: 24, CBChoices: []int{0, 0, CBAlloc}, CustomCmp: true, Nested: true, CheckFree: true, PrioModes: []int{0, 1, 2, 4}})
-	add(&Profile{Name: "C11", Weights: mergeW(mergeW(baseWeights(), snapW), map[string]float64{"copyto": 3, "setcoll": 0.4, "rmcoll": 0.2, "evict": 3, "snapwrite": 0, "snaprevert": 0}),
+	add(&Profile{Name: "C11", Weights: mergeW(mergeW(baseWeights(), snapW), map[string]float64{"fill": 0.3, "setcolls": 0.004, "copyto": 3, "setcoll": 0.4, "rmcoll": 0.2, "evict": 3, "snapwrite": 0, "snaprevert": 0}),
 		Judge:     []string{"copyto"},
 		AuditMode: "visit", MaxStores: 1, AllowMem: true, MemOnlyP: 0.15, MinOps: 8, MaxOps: 60, LongRunP: 0.02, LongOps: 300,
-		MaxColls: 4, MaxKeys: 30, CBChoices: allCB, CustomCmp: true, BigValues: true, CheckWrites: true, PrioModes: []int{0, 1, 2, 4}})
+		MaxColls: 4, MaxKeys: 48, CBChoices: allCB, CustomCmp: true, BigValues: true, CheckWrites: true, PrioModes: []int{5, 0, 1, 2, 4}})
 	add(&Profile{Name: "C12", Weights: mergeW(baseWeights(), map[string]float64{"setcolls": 0.004, "setcoll": 4, "rmcoll": 2.5, "names": 2, "getcoll": 2, "flush": 2, "reopen": 1.5, "audit": 1.5, "snapshot": 0.5, "snapclose": 0.3, "visit": 1, "write": 0.8}),
 		Judge:     []string{"setcoll", "rmcoll", "names", "getcoll", "audit", "open", "reopen"},
 		AuditMode: "visit", MaxStores: 1, AllowMem: true, MemOnlyP: 0.2, MinOps: 10, MaxOps: 70, LongRunP: 0.02, LongOps: 400,
 		MaxColls: 5, MaxKeys: 12, CBChoices: allCB, CustomCmp: true, Nested: true, PrioModes: []int{0, 1, 4}})
-	add(&Profile{Name: "C13", Weights: mergeW(baseWeights(), map[string]float64{"audit": 5, "set": 0.5, "del": 5, "evict": 3, "flush": 2, "reopen": 1, "visit": 1}),
+	add(&Profile{Name: "C13", Weights: mergeW(baseWeights(), map[string]float64{"fill": 0.3, "audit": 5, "set": 0.5, "del": 5, "evict": 3, "flush": 2, "reopen": 1, "visit": 1}),
 		Judge:     []string{"audit", "flush", "visit", "reopen", "open"},
 		AuditMode: "visit", MaxStores: 1, AllowMem: true, MemOnlyP: 0.25, MinOps: 6, MaxOps: 50, LongRunP: 0.05, LongOps: 600,
 		MaxColls: 2, MaxKeys: 30, CBChoices: []int{0, 0, 0, CBAll}, CustomCmp: true, CheckTree: true, CheckDecode: true, CheckStruct: true,
-		PrioModes: []int{0, 0, 0, 1, 2, 3}, SmallSetsP: 0.6})
-	add(&Profile{Name: "C14", Weights: mergeW(baseWeights(), map[string]float64{"setcolls": 0.004, "faultyflush": 0.6, "flush": 5, "copyto": 0.5, "setcoll": 0.6, "rmcoll": 0.4, "reopen": 1, "write": 0.3}),
+		PrioModes: []int{5, 0, 0, 0, 1, 2, 3}, SmallSetsP: 0.6})
+	add(&Profile{Name: "C14", Weights: mergeW(baseWeights(), map[string]float64{"revert": 0.4, "snapshot": 0.4, "snapclose": 0.3, "setcolls": 0.004, "faultyflush": 0.6, "flush": 5, "copyto": 0.5, "setcoll": 0.6, "rmcoll": 0.4, "reopen": 1, "write": 0.3}),
 		Judge:     []string{"flush", "copyto", "open", "reopen"},
 		AuditMode: "visit", MaxStores: 1, MinOps: 8, MaxOps: 70, LongRunP: 0.03, LongOps: 600,
 		MaxColls: 5, MaxKeys: 30, CBChoices: allCB, CustomCmp: true, BigValues: true, CheckDecode: true, CheckStruct: true, PrioModes: []int{0, 1, 2, 3, 4}})
@@ -117,14 +118,14 @@ func Profiles() map[string]*Profile {
 		Judge:     []string{"iter", "visit"},
 		AuditMode: "visit", MaxStores: 1, AllowMem: true, MemOnlyP: 0.3, MinOps: 6, MaxOps: 50, LongRunP: 0.02, LongOps: 300,
 		MaxColls: 2, MaxKeys: 30, CBChoices: []int{0, 0, CBAll}, CustomCmp: true, Nested: true, PrioModes: []int{0, 1, 4}})
-	add(&Profile{Name: "C19", Weights: mergeW(baseWeights(), map[string]float64{"setcoll": 0.5, "rmcoll": 0.5, "visit": 4, "iter": 1, "len": 1, "blockvisit": 0.5, "evict": 5, "flush": 4, "reopen": 3, "audit": 0.1, "get": 1, "snapshot": 0.3, "snapclose": 0.2}),
+	add(&Profile{Name: "C19", Weights: mergeW(baseWeights(), map[string]float64{"setcolls": 0.004, "setcoll": 0.5, "rmcoll": 0.5, "visit": 4, "iter": 1, "len": 1, "blockvisit": 0.5, "evict": 5, "flush": 4, "reopen": 3, "audit": 0.1, "get": 1, "snapshot": 0.3, "snapclose": 0.2}),
 		Judge:     []string{},
 		AuditMode: "visit", MaxStores: 1, MinOps: 10, MaxOps: 80, LongRunP: 0.03, LongOps: 500,
 		MaxColls: 3, MaxKeys: 30, CBChoices: []int{0, 0, CBAlloc, CBAfterRead | CBBeforeWrite, CBKeyCompare}, CustomCmp: true, CheckReads: true, PrioModes: []int{0, 1, 4}})
 	add(&Profile{Name: "C16", Weights: map[string]float64{"len": 3, "blockvisit": 4, "randvisit": 3, "setitem": 2, "del": 2, "flush": 1, "evict": 2, "reopen": 0.5},
 		Judge:     []string{"len", "blockvisit", "randvisit"},
 		AuditMode: "visit", MaxStores: 1, AllowMem: true, MemOnlyP: 0.4, MinOps: 6, MaxOps: 30,
-		MaxColls: 1, MaxKeys: 80, CBChoices: []int{0, 0, CBAll}, CustomCmp: true, PrioModes: []int{1, 4},
+		MaxColls: 1, MaxKeys: 80, CBChoices: []int{0, 0, CBAll}, CustomCmp: true, PrioModes: []int{5, 1, 4},
 		Sizes: []int{1023, 1024, 1025, 2047, 2048, 2049, 3071, 3072, 3073}})
 	add(&Profile{Name: "C17", Weights: mergeW(baseWeights(), map[string]float64{"visit": 3, "iter": 1, "flush": 3, "reopen": 2, "revert": 0.8, "snapshot": 0.5, "snapclose": 0.4, "snaprevert": 0.3, "blockvisit": 0.2, "randvisit": 0.2, "setcoll": 0.4, "rmcoll": 0.2, "invalid": 0.3, "len": 0.3, "copyto": 0.2, "evict": 3}),
 		AuditMode: "both", MaxStores: 1, MinOps: 10, MaxOps: 70, LongRunP: 0.02, LongOps: 400,
@@ -287,7 +288,52 @@ func (g *Gen) value(big bool) *ValSpec {
 func (g *Gen) advValue(tag string) []byte {
 	r := g.r
 	b := []byte(tag)
-	switch r.Intn(4) {
+	switch r.Intn(6) {
+	case 4, 5:
+		// One defect away from a complete root record: every field is
+		// exact for the offset at which the record is predicted to land
+		// (file size + a guess for item header, key and tag), except one.
+		js := []byte(`{"a":{"o":0,"l":0}}`)
+		if r.Bool(0.3) {
+			js = []byte(`{}`)
+		}
+		defect := r.Intn(7)
+		switch defect {
+		case 1:
+			js = append(js, 'x') // trailing garbage after the JSON value
+		case 2:
+			js = js[:len(js)-1] // JSON cut short
+		}
+		length := uint32(decRootFixed + len(js))
+		var sz int64
+		if len(g.w.Disks) > 0 {
+			sz = g.w.Disks[0].Size()
+		}
+		off := uint64(sz + int64(len(tag)) + int64(r.Range(14, 40)))
+		version := uint32(decVersion)
+		hdrLen, trLen := length, length
+		beg1, beg2 := append([]byte{}, decMagicBeg...), append([]byte{}, decMagicBeg...)
+		switch defect {
+		case 0:
+			version += uint32(1 + r.Intn(2)) // another format version
+		case 3:
+			hdrLen-- // header length smaller than the trailer's
+		case 4:
+			hdrLen++
+		case 5:
+			beg2[len(beg2)-1] ^= 1 // second begin marker damaged
+		case 6:
+			beg1[0] ^= 1
+		}
+		rec := append(beg1, beg2...)
+		rec = binary.BigEndian.AppendUint32(rec, version)
+		rec = binary.BigEndian.AppendUint32(rec, hdrLen)
+		rec = append(rec, js...)
+		rec = binary.BigEndian.AppendUint64(rec, off)
+		rec = binary.BigEndian.AppendUint32(rec, trLen)
+		rec = append(rec, decMagicEnd...)
+		rec = append(rec, decMagicEnd...)
+		b = append(b, rec...)
 	case 0:
 		b = append(b, decMagicEnd...)
 		b = append(b, decMagicEnd...)
@@ -360,6 +406,17 @@ func (g *Gen) prio(cc *collCfg, mc *MColl, key []byte) int32 {
 		return int32(r.Intn(4))
 	case 3:
 		return 7
+	case 5:
+		// priority = rank of the key in the collection's key pool under
+		// bytes order: inserted in any order the treap is one long chain
+		// (depth = number of items), far deeper than random priorities give
+		rank := 0
+		for _, k := range cc.Keys {
+			if bytes.Compare(k, key) < 0 {
+				rank++
+			}
+		}
+		return int32(1000 + 10*rank)
 	}
 	return int32(r.Uint64() & 0x7fffffff)
 }
@@ -923,6 +980,27 @@ func (g *Gen) build(kind string) (Op, bool) {
 			g.nextDisk++
 			return op, true
 		}
+	case "fill": // every key of the collection's pool, in random order
+		hs := g.writable()
+		if len(hs) > 0 {
+			h := hs[r.Intn(len(hs))]
+			name, cc, mc := g.pickColl(h)
+			if mc == nil || cc == nil || len(cc.Keys) == 0 {
+				return Op{}, false
+			}
+			var first Op
+			for i, ki := range r.Perm(len(cc.Keys)) {
+				k := cc.Keys[ki]
+				op := Op{Kind: "setitem", S: h.ID, C: name, Key: k, Val: g.value(false)}
+				op.Prio = g.prio(cc, h.M.Colls[name], k)
+				if i == 0 {
+					first = op
+				} else {
+					g.queue = append(g.queue, op)
+				}
+			}
+			return first, true
+		}
 	case "burst": // unrelated allocation to force reuse of freed nodes
 		hs := g.writable()
 		if len(hs) > 0 {
@@ -996,10 +1074,13 @@ func (g *Gen) addNested(op *Op, h *StoreH, depth int) {
 	n := r.Range(1, 3)
 	for i := 0; i < n; i++ {
 		at := r.Range(1, 4)
-		kinds := []string{"get", "getitem", "min", "totals", "visit", "setitem", "del", "evict", "flush", "snapshot"}
+		kinds := []string{"get", "getitem", "min", "totals", "visit", "setitem", "del", "evict", "flush", "snapshot", "setcoll", "rmcoll"}
 		k := kinds[r.Intn(len(kinds))]
-		if _, ok := g.wts[k]; !ok && k != "visit" && k != "get" && k != "setitem" && k != "del" {
+		if _, ok := g.wts[k]; !ok && k != "visit" && k != "get" && k != "setitem" && k != "del" && k != "setcoll" {
 			k = "get"
+		}
+		if (k == "setcoll" || k == "rmcoll") && (h.Snap || !r.Bool(0.5)) {
+			k = "getitem"
 		}
 		if h.Snap && (k == "setitem" || k == "del" || k == "evict" || k == "flush") {
 			// mutate the original instead: legal from the mutating goroutine
@@ -1067,6 +1148,16 @@ func (g *Gen) buildFor(kind string, h *StoreH) (Op, bool) {
 		op := Op{Kind: "snapshot", S: h.ID, N: g.nextStore}
 		g.nextStore++
 		return op, true
+	case "setcoll":
+		// re-register the collection being used (closes the handle the
+		// enclosing operation works on), same ordering
+		op := Op{Kind: "setcoll", S: h.ID, C: name, Cmp: mc.Cmp}
+		if op.Cmp == CmpBytes && r.Bool(0.5) {
+			op.N2 = 1
+		}
+		return op, true
+	case "rmcoll":
+		return Op{Kind: "rmcoll", S: h.ID, C: name}, true
 	}
 	return Op{}, false
 }
